@@ -73,9 +73,11 @@ def ty_wire(mm: M.MM, t: M.Type) -> str:
     return ",".join(enc_ty(mm, t))
 
 
-def enc_mm(mm: M.MM) -> str:
-    toks: List[str] = [str(len(mm.classes))]
-    for c in mm.classes:
+def enc_mm(mm: M.MM, only: Optional[set] = None) -> str:
+    """``only``: restrict the class list to these names (enough for functions that only look classes up by name)."""
+    classes = [c for c in mm.classes if only is None or c.name in only]
+    toks: List[str] = [str(len(classes))]
+    for c in classes:
         props = M.all_props(mm, c.name)
         toks += [enc_text(c.name), "1" if c.abstract else "0", "1" if c.with_model_type else "0", str(len(props))]
         for p, _owner in props:
